@@ -19,6 +19,22 @@ any placement of `Close`.
 
 Fields marked *ghost* are history variables: `step` never branches on them.
 Core-only (no Mathlib): the driver links this file.
+
+Round 3 additions (all of `handle` / `handleConnectRequest` that matters for shutdown):
+* CONNECT exchanges (`gotConnect`; `Handler.conn` says which path `handleConnectRequest` took): blind
+  tunnels (`dialStart`/`dialEnd ok` = `p.connect`, `cwriteStart`/`cwriteEnd` = the 200/502, `tunnel` = the
+  two `copySync` pumps, left only by `tunnelEnd` = both peers done — an ENVIRONMENT move, the proxy never
+  tears a tunnel down); MITM (`mitmAccept` = the synthesised 200, `mitmPeek` = the blocking one-byte
+  `brw.Read`, `mitmHandshake`, then either the ordinary serving loop on the decrypted connection
+  (`secure := true`) or an HTTP/2 session `h2session`, which `h2.Config.Proxy(p.closing, …)` leaves on
+  its own once `closing` is closed (`h2Stop`) or when a peer ends it (`h2PeerEnd`); after either the
+  handler is back in `readRequest` (`handle` returned nil, `handleLoop` iterates);
+* hijacking (`hijack`: `session.Hijack()` called inside a modifier; when the modifier returns `handle`
+  returns nil, `handleLoop` sees `Hijacked()` and returns — the deferred `conn.Close()` runs, no response);
+* write failures (`writeErr`: `res.Write`/`Flush` failed because the CLIENT went away or the per-iteration
+  idle deadline `p.timeout` expired — an environment move; the handler closes the connection);
+* further callers of `Close()` (`closeCall2`; the caller whose `close(p.closing)` executes first is the
+  one tracked by `cpc`; every other caller's `close(p.closing)` panics: `closeChan2`).
 -/
 namespace Martian.Shutdown
 
@@ -38,6 +54,12 @@ inductive Pc where
   | postResmod      -- before the close decision
   | decided (close : Bool)
   | writing (close : Bool)
+  | dialing         -- CONNECT, no MITM: in `p.connect` (`p.dial`)
+  | cwriting        -- CONNECT: writing the 200 / 502 of `handleConnectRequest`
+  | tunnel          -- blind tunnel: both `copySync` pumps running, handler waits for both
+  | mitmPeek        -- MITM: 200 written; blocking `brw.Read` of the first tunnel byte
+  | mitmHandshake   -- MITM: `tlsconn.Handshake()`
+  | h2session       -- MITM, ALPN h2: inside `h2.Config.Proxy(p.closing, …)`
   | closingConn     -- `handleLoop` is returning; deferred `conn.Close()` pending
   | closed          -- connection closed; deferred `conns.Done()` pending
   | done
@@ -56,10 +78,22 @@ inductive AccPc where
   | stopped             -- returned (listener closed)
   deriving DecidableEq, Repr
 
+/-- Which path of `handleConnectRequest` the current exchange is on (`no`: not a CONNECT). -/
+inductive ConnKind where
+  | no | pending | dialOk | dialFail | mitm
+  deriving DecidableEq, Repr
+
+/-- Outcome of the MITM TLS handshake. -/
+inductive Hs where
+  | fail | h1 | h2
+  deriving DecidableEq, Repr
+
 structure Handler where
   pc : Pc
   reqClose : Bool := false      -- `req.Close` of the current request
   resClose : Bool := false      -- `res.Close` after round trip / response modifier
+  conn : ConnKind := .no        -- CONNECT path of the current exchange
+  secure : Bool := false        -- serving the decrypted side of a MITM'd tunnel (writes are not observable in clear)
   -- ghost --
   late : Bool := false          -- `closing` was already signalled when this connection was accepted
   entered : Bool := false       -- passed the `Closing()` check of `handleLoop` with "not closing"
@@ -70,6 +104,9 @@ structure Handler where
   marks : List (Bool × Bool × Bool) := []  -- per completed response: (closing observable at decision, close asked by request/response, marked close)
   startedAfterReturn : Bool := false -- a request modifier started after `Close` had returned
   servedAfterMark : Bool := false    -- a request was read after a response marked close
+  hijacked : Nat := 0           -- exchanges handed over to a hijacking modifier (no response from the proxy)
+  aborted : Nat := 0            -- responses whose write failed (client gone / idle deadline)
+  cresps : Nat := 0             -- completed responses to CONNECT (not recorded in `marks`)
   deriving DecidableEq, Repr
 
 structure Sys where
@@ -80,6 +117,12 @@ structure Sys where
   hs : List Handler := []
   /-- ghost: some handler was still not `done` (or not even counted) when `Close` returned -/
   returnedEarly : Bool := false
+  /-- further `Close()` calls that have not yet executed their `close(p.closing)` -/
+  extra : Nat := 0
+  /-- ghost: further `Close()` calls made so far -/
+  calls2 : Nat := 0
+  /-- `close of closed channel` panics raised in callers of `Close()` -/
+  panics : Nat := 0
   deriving DecidableEq, Repr
 
 def init : Sys := {}
@@ -90,12 +133,16 @@ inductive HL where
   | firstByte | gotReq (reqClose : Bool) | closingSeen | readErr
   | reqmodStart | reqmodEnd | rtStart | rtEnd (resClose : Bool) | resmodStart | resmodEnd
   | decide | writeStart | writeEnd | closeConn | finish
+  -- round 3
+  | gotConnect | hijack | dialStart | dialEnd (ok : Bool) | mitmAccept | cwriteStart | cwriteEnd
+  | writeErr | tunnelEnd | peeked (tls : Bool) | handshakeEnd (r : Hs) | h2Stop | h2PeerEnd
   deriving DecidableEq, Repr
 
 inductive Label where
   | serveCheck | accept
   | h (k : Nat) (l : HL)
   | closeCall | closeChan | lock | waitZero | ret
+  | closeCall2 | closeChan2
   deriving DecidableEq, Repr
 
 def ClosePc.holdsMu : ClosePc → Bool
@@ -114,7 +161,13 @@ def Pc.counted : Pc → Bool
 /-- A started exchange (request modifier entered) whose response is not completely written. -/
 def Pc.inExchange : Pc → Bool
   | .inReqmod | .postReqmod | .inRoundTrip | .postRoundTrip | .inResmod | .postResmod
-  | .decided _ | .writing _ => true
+  | .decided _ | .writing _ | .dialing | .cwriting => true
+  | _ => false
+
+/-- The handler waits for a peer (client or tunnel target), whatever the shutdown state: an open blind
+tunnel, the first byte of a MITM'd tunnel, the TLS handshake. -/
+def Pc.peerBlocked : Pc → Bool
+  | .tunnel | .mitmPeek | .mitmHandshake => true
   | _ => false
 
 /-- Some completed response was marked `Connection: close`. -/
@@ -131,7 +184,12 @@ def hstep (closing mu returned : Bool) (h : Handler) : HL → Option Handler
   | .gotReq rc =>
     -- `select` in readRequest: the request arm may be taken whether or not `closing` is closed
     if h.pc.readable then
-      some { h with pc := .haveReq, reqClose := rc, resClose := false, reqs := h.reqs + 1,
+      some { h with pc := .haveReq, reqClose := rc, resClose := false, conn := .no, reqs := h.reqs + 1,
+                    servedAfterMark := h.servedAfterMark || anyMarked h.marks }
+    else none
+  | .gotConnect =>
+    if h.pc.readable then
+      some { h with pc := .haveReq, reqClose := false, resClose := false, conn := .pending, reqs := h.reqs + 1,
                     servedAfterMark := h.servedAfterMark || anyMarked h.marks }
     else none
   | .closingSeen => if h.pc.readable ∧ closing then some { h with pc := .closingConn } else none
@@ -142,12 +200,48 @@ def hstep (closing mu returned : Bool) (h : Handler) : HL → Option Handler
                     startedAfterReturn := h.startedAfterReturn || returned }
     else none
   | .reqmodEnd => if h.pc = .inReqmod then some { h with pc := .postReqmod } else none
-  | .rtStart => if h.pc = .postReqmod then some { h with pc := .inRoundTrip } else none
+  | .rtStart => if h.pc = .postReqmod ∧ h.conn = .no then some { h with pc := .inRoundTrip } else none
+  -- `session.Hijack()` was called inside the modifier that is running; when it returns, `handle` returns
+  -- nil and `handleLoop` returns because the session is hijacked
+  | .hijack =>
+    if h.pc = .inReqmod ∨ h.pc = .inResmod then some { h with pc := .closingConn, hijacked := h.hijacked + 1 } else none
+  | .dialStart => if h.pc = .postReqmod ∧ h.conn ≠ .no then some { h with pc := .dialing } else none
+  | .dialEnd ok =>
+    if h.pc = .dialing then some { h with pc := .postRoundTrip, conn := if ok then .dialOk else .dialFail } else none
+  | .mitmAccept => if h.pc = .postReqmod ∧ h.conn ≠ .no then some { h with pc := .postRoundTrip, conn := .mitm } else none
+  | .cwriteStart => if h.pc = .postResmod ∧ h.conn ≠ .no then some { h with pc := .cwriting } else none
+  | .cwriteEnd =>
+    if h.pc = .cwriting then
+      some { h with pc := (match h.conn with
+                           | .dialOk => .tunnel
+                           | .mitm => .mitmPeek
+                           | _ => .idleRead),
+                    completed := h.completed + 1, cresps := h.cresps + 1 }
+    else none
+  -- ABSTRACTIONS (over-approximations that skip states without visible events): a failed write of a CONNECT's
+  -- 200 goes straight to `closingConn` (the code logs it and starts the pumps, which end at once on the dead
+  -- connection); a failed MITM handshake goes to `idleRead` (the code returns the error: `handleLoop` leaves
+  -- if it is closeable, else reads the next request from the dead connection and leaves on `readErr`).
+  | .writeErr =>
+    match h.pc with
+    | .writing _ => some { h with pc := .closingConn, aborted := h.aborted + 1 }
+    | .cwriting => some { h with pc := .closingConn, aborted := h.aborted + 1 }
+    | _ => none
+  | .tunnelEnd => if h.pc = .tunnel then some { h with pc := .closingConn } else none
+  | .peeked tls =>
+    if h.pc = .mitmPeek then some { h with pc := if tls then .mitmHandshake else .idleRead } else none
+  | .handshakeEnd r =>
+    if h.pc = .mitmHandshake then
+      some { h with pc := (match r with | .h2 => .h2session | _ => .idleRead),
+                    secure := (match r with | .h1 => true | _ => h.secure) }
+    else none
+  | .h2Stop => if h.pc = .h2session ∧ closing then some { h with pc := .idleRead } else none
+  | .h2PeerEnd => if h.pc = .h2session then some { h with pc := .idleRead } else none
   | .rtEnd rc => if h.pc = .inRoundTrip then some { h with pc := .postRoundTrip, resClose := rc } else none
   | .resmodStart => if h.pc = .postRoundTrip then some { h with pc := .inResmod } else none
   | .resmodEnd => if h.pc = .inResmod then some { h with pc := .postResmod } else none
   | .decide =>
-    if h.pc = .postResmod then
+    if h.pc = .postResmod ∧ h.conn = .no then
       some { h with pc := .decided (h.reqClose || h.resClose || closing), obsAtDecision := closing }
     else none
   | .writeStart =>
@@ -193,6 +287,10 @@ def step (s : Sys) : Label → Option Sys
     if s.cpc = .zeroSeen then
       some { s with cpc := .returned, returnedEarly := s.hs.any (fun h => h.pc != .done) }
     else none
+  | .closeCall2 => some { s with extra := s.extra + 1, calls2 := s.calls2 + 1 }
+  | .closeChan2 =>
+    -- `close(p.closing)` of a caller that is not the first to execute it: the channel is closed already
+    if 0 < s.extra ∧ s.closing then some { s with extra := s.extra - 1, panics := s.panics + 1 } else none
 
 def run (s : Sys) : List Label → Option Sys
   | [] => some s
@@ -207,8 +305,16 @@ def Reachable (s : Sys) : Prop := ∃ sched, run init sched = some s
 decision of the application to call `Close`). Client moves: a new connection (`accept` fires when a
 client connects), bytes of a request (`firstByte`, `gotReq`), client close / timeout (`readErr`). -/
 def Label.internal : Label → Bool
-  | .accept | .closeCall => false
+  | .accept | .closeCall | .closeCall2 => false
   | .h _ (.firstByte) | .h _ (.gotReq _) | .h _ .readErr => false
+  | .h _ .gotConnect | .h _ .writeErr | .h _ .tunnelEnd | .h _ (.peeked _) | .h _ (.handshakeEnd _)
+  | .h _ .h2PeerEnd => false
   | _ => true
+
+/-- Moves of a peer that end the wait of a peer-blocked handler (tunnel peers closing, the client of a
+MITM'd tunnel sending its first byte / finishing or failing the handshake — or the idle deadline). -/
+def Label.peerMove : Label → Bool
+  | .h _ .tunnelEnd | .h _ (.peeked _) | .h _ (.handshakeEnd _) => true
+  | _ => false
 
 end Martian.Shutdown
